@@ -402,6 +402,23 @@ static std::string conc_str(State &s, const Val &p, const char *what)
   return r;
 }
 
+// like conc_str, but symbolic bytes are case-split over their feasible values (few alternatives expected)
+static std::string conc_str_fork(State &s, const Val &p, const char *what)
+{
+  std::vector<Byte> b; read_cstr(s, p, b, what);
+  std::string r;
+  for (auto &x : b)
+  {
+    if (x.k == BK_CONC) { r += (char)x.c; continue; }
+    std::vector<uint64_t> vals = feasible_values(s, *x.e, 64);
+    if (vals.size() > 64) die("%s: symbolic byte with more than 64 feasible values", what);
+    if (vals.empty()) throw PathEnd{"infeasible"};
+    if (vals.size() > 1) { ForkReq fr; for (uint64_t v : vals) fr.alts.push_back(*x.e == Z.bv_val(v, 8)); throw fr; }
+    r += (char)vals[0];
+  }
+  return r;
+}
+
 static void write_bytes(State &s, const Val &p0, const std::vector<Byte> &bytes, bool nul, const char *what)
 {
   uint64_t n = bytes.size() + (nul ? 1 : 0);
